@@ -2,13 +2,16 @@ package c05
 
 import (
 	"bytes"
+	"context"
 	"errors"
 	"fmt"
 	"io"
+	"net"
 	"net/http"
 	"net/http/httptest"
 	"strings"
 	"sync"
+	"syscall"
 	"testing"
 	"time"
 
@@ -32,6 +35,38 @@ type backendSpec struct {
 	Pattern string `json:"pattern"`
 	K       int    `json:"k,omitempty"`
 	M       int    `json:"m,omitempty"`
+	Err     string `json:"err,omitempty"` // what a failing attempt returns: "" (plain error), "dial-timeout", "eof", "reset"
+}
+
+// dialTimeoutErr is the error a real dial returns when it runs out of time
+// (it matches context.DeadlineExceeded under errors.Is).
+var dialTimeoutErr = func() error {
+	_, err := net.DialTimeout("tcp", "127.0.0.1:9", time.Nanosecond)
+	if err == nil || !errors.Is(err, context.DeadlineExceeded) {
+		return &net.OpError{Op: "dial", Net: "tcp", Err: deadlineErr{}}
+	}
+	return err
+}()
+
+type deadlineErr struct{}
+
+func (deadlineErr) Error() string   { return "i/o timeout" }
+func (deadlineErr) Timeout() bool   { return true }
+func (deadlineErr) Temporary() bool { return true }
+func (deadlineErr) Is(err error) bool {
+	return err == context.DeadlineExceeded
+}
+
+func (s backendSpec) failure() error {
+	switch s.Err {
+	case "dial-timeout":
+		return dialTimeoutErr
+	case "eof":
+		return io.EOF
+	case "reset":
+		return &net.OpError{Op: "read", Net: "tcp", Err: syscall.ECONNRESET}
+	}
+	return errors.New("verif: backend failure (injected)")
 }
 
 type retryCase struct {
@@ -83,7 +118,7 @@ func (f *fakeBackend) RoundTrip(req *http.Request) (*http.Response, error) {
 		f.mu.Lock()
 		*f.log = append(*f.log, a)
 		f.mu.Unlock()
-		return nil, errors.New("verif: backend failure (injected)")
+		return nil, f.spec.failure()
 	}
 	switch f.spec.Pattern {
 	case fpRefuse:
@@ -263,6 +298,14 @@ func runRetry(c *retryCase) (int, error) {
 var bodyLens = []int{0, 1, 100, 4096, 32767, 32768, 32769, 65536, 100000}
 
 func genBackend(t *rapid.T, label string, bodyLen int) backendSpec {
+	b := genBackendPattern(t, label, bodyLen)
+	if b.Pattern != fpHealthy {
+		b.Err = rapid.SampledFrom([]string{"", "", "dial-timeout", "eof", "reset"}).Draw(t, label+"e")
+	}
+	return b
+}
+
+func genBackendPattern(t *rapid.T, label string, bodyLen int) backendSpec {
 	switch rapid.IntRange(0, 9).Draw(t, label+"p") {
 	case 0, 1, 2:
 		return backendSpec{Pattern: fpHealthy}
